@@ -202,6 +202,9 @@ func (m *modernHandler) OnResourcePackResponse(bundle *ResponseBundle) (bool, er
 }
 
 func (m *modernHandler) HasPackAppliedByHash(hash []byte) bool {
+	if len(hash) == 0 {
+		return false // packs without a hash are never "the same pack"
+	}
 	m.RLock()
 	defer m.RUnlock()
 	for _, info := range m.appliedPacks {
